@@ -10,6 +10,11 @@ CONSTANTS
   ResetOnEmpty = TRUE
   BUG_ResetEarly = FALSE
   BUG_NoVirtual = FALSE
+  PathK = 0
+  PathM = 0
+  PathMul = 1
+  PathMod = 7
+  PathAll = FALSE
 INVARIANTS TypeOK Agree
 
 CONSTRAINT EmitLeaf
